@@ -443,7 +443,7 @@ func (c ProgCfg) plantEscape(r *Rand, doc any) (any, string) {
 		}
 		h := PickAny(r, ms)
 		v, _ := Get(doc, h)
-		v.(map[string]any)[r.Pick("$$k", "$$merge", "$$$$", "a$$")] = c.Tree.Scalar(r)
+		v.(map[string]any)[r.Pick("$$k", "$$merge", "$$$$", "a$$", "$$$", "$A", "$$A")] = c.Tree.Scalar(r)
 		return doc, "escape-key"
 	}
 	ps := keyPositions(doc, isScalar)
